@@ -1,16 +1,34 @@
 #!/bin/bash
-# run_mutants.sh [names...] — applies each break to /tmp/wt-c14 and runs the quick
-# tier against it with known_findings = current + proposed (VERIF_ROOT=/tmp/c14root).
-# A break is caught when the run reports a violation key that is not a listed finding.
+# run_mutants.sh [names...] — self-validation of the C14 monitor.
+# Creates the scratch worktree /tmp/wt-c14 (if missing) and a shadow root
+# /tmp/c14root (bin, harness -> /verif; known_findings.json = current + the
+# proposals of harness/cmd/w_c14/proposed_known_findings.json), applies each
+# break of mutate.py to the worktree and runs the quick tier against it.
+# A break is caught when the run reports a violation key that is not a listed
+# finding (printed after "new:"). Clean up afterwards with
+#   git -C /repo worktree remove --force /tmp/wt-c14; rm -rf /tmp/c14root
 cd /verif
+[ -d /tmp/wt-c14 ] || git -C /repo worktree add --detach /tmp/wt-c14 HEAD >/dev/null 2>&1
+mkdir -p /tmp/c14root
+ln -sfn /verif/bin /tmp/c14root/bin
+ln -sfn /verif/harness /tmp/c14root/harness
+python3 - <<'PY'
+import json
+cur = json.load(open('/verif/known_findings.json'))
+have = {(k['property'], k['key']) for k in cur}
+for p in json.load(open('/verif/harness/cmd/w_c14/proposed_known_findings.json')):
+    if (p['property'], p['key']) not in have:
+        cur.append(p)
+json.dump(cur, open('/tmp/c14root/known_findings.json', 'w'), indent=1)
+PY
 names="$@"; [ -z "$names" ] && names=$(selftest/c14/mutate.py list)
 for m in $names; do
   selftest/c14/mutate.py "$m" /tmp/wt-c14 || { echo "$m: cannot apply"; continue; }
   t0=$(date +%s)
-  VERIF_ROOT=/tmp/c14root VERIF_REPO=/tmp/wt-c14 ${TIERENV} /verif/bin/vcheck C14 quick > /tmp/c14root/mut-$m.log 2>&1
+  VERIF_ROOT=/tmp/c14root VERIF_REPO=/tmp/wt-c14 /verif/bin/vcheck C14 quick > /tmp/c14root/mut-$m.log 2>&1
   code=$?
   t1=$(date +%s)
-  keys=$(grep -o 'key=[^ ]*' /tmp/c14root/mut-$m.log | sort | uniq | tr '\n' ' ')
-  echo "$m: exit=$code wall=$((t1-t0))s $keys"
+  keys=$(grep -o '^\[C14\]   key=[^ ]*' /tmp/c14root/mut-$m.log | sed 's/.*key=C14|//' | sort -u | tr '\n' ' ')
+  echo "$m: exit=$code wall=$((t1-t0))s new: $keys"
 done
 selftest/c14/mutate.py orig /tmp/wt-c14
